@@ -81,6 +81,21 @@ type varsCase struct {
 	Only     int                 `json:"only"`
 	Matrix   [][]string          `json:"matrix,omitempty"` // product: rows: key, items...
 	Loop     *vLoop              `json:"loop,omitempty"`   // kind loop
+	Chain    *vChain             `json:"chain,omitempty"`  // kind envchain
+}
+
+// vChain: `env:` entries given by `sh:` that read other env entries (global and task level) and
+// names the process environment has: an `sh:` entry sees the process value first, else the
+// entries that are static at that moment (C10).
+type vChain struct {
+	Os      [][2]string `json:"os"`      // process environment: name (one of the entry names or OX), value
+	Entries []vChainEnt `json:"entries"` // in merged order: global entries first, then task entries
+}
+
+type vChainEnt struct {
+	Name   string `json:"name"`   // EG<k> (global env) | ET<k> (task env)
+	Lit    string `json:"lit"`    // literal value, or ""
+	Reads  string `json:"reads"`  // name read by the sh: command, or ""
 }
 
 // vLoop: one task with a `for:` entry whose loop variable may collide with a variable that is
@@ -90,6 +105,97 @@ type vLoop struct {
 	Form  string   `json:"form"`  // list (`for: [..]`, variable ITEM) | var (`for: {var: LST, as: NAME}`)
 	Items []string `json:"items"` // non-empty words without spaces
 	Stale string   `json:"stale"` // "" | task | global: where a variable named like the loop variable is defined
+}
+
+func evalVarsChain(d varsCase) []varsLine {
+	ch := d.Chain
+	varsCaseNo++
+	base := os.Getenv("VERIF_SCRATCH")
+	if base == "" {
+		base = os.TempDir()
+	}
+	dir := filepath.Join(base, fmt.Sprintf("vx%d-%d", os.Getpid(), varsCaseNo))
+	os.MkdirAll(dir, 0o755)
+	defer os.RemoveAll(dir)
+	ids := map[string]int{}
+	idOf := func(n string) int {
+		if _, ok := ids[n]; !ok {
+			ids[n] = len(ids)
+		}
+		return ids[n]
+	}
+	render := func(w *strings.Builder, ind string, es []vChainEnt) {
+		for _, e := range es {
+			if e.Reads != "" {
+				fmt.Fprintf(w, "%s%s: {sh: %s}\n", ind, e.Name, varsYamlQ(fmt.Sprintf("printf '%%s' \"$%s\" # %s", e.Reads, e.Name)))
+			} else {
+				fmt.Fprintf(w, "%s%s: %s\n", ind, e.Name, varsYamlQ(e.Lit))
+			}
+		}
+	}
+	var g, t []vChainEnt
+	for _, e := range ch.Entries {
+		if strings.HasPrefix(e.Name, "EG") {
+			g = append(g, e)
+		} else {
+			t = append(t, e)
+		}
+	}
+	var y strings.Builder
+	y.WriteString("version: '3'\n")
+	if len(g) > 0 {
+		y.WriteString("env:\n")
+		render(&y, "  ", g)
+	}
+	y.WriteString("tasks:\n  t:\n")
+	if len(t) > 0 {
+		y.WriteString("    env:\n")
+		render(&y, "      ", t)
+	}
+	y.WriteString("    cmds: ['true']\n")
+	os.WriteFile(filepath.Join(dir, "Taskfile.yml"), []byte(y.String()), 0o644)
+	var cl strings.Builder
+	fmt.Fprintf(&cl, "vars.envchain %d", len(ch.Os))
+	for _, kv := range ch.Os {
+		fmt.Fprintf(&cl, " %d %s", idOf(kv[0]), hx(kv[1]))
+	}
+	for _, grp := range [][]vChainEnt{g, t} {
+		fmt.Fprintf(&cl, " %d", len(grp))
+		for _, e := range grp {
+			if e.Reads != "" {
+				fmt.Fprintf(&cl, " %d r %d", idOf(e.Name), idOf(e.Reads))
+			} else {
+				fmt.Fprintf(&cl, " %d l %s", idOf(e.Name), hx(e.Lit))
+			}
+		}
+	}
+	for _, kv := range ch.Os {
+		os.Setenv(kv[0], kv[1])
+	}
+	defer func() {
+		for _, kv := range ch.Os {
+			os.Unsetenv(kv[0])
+		}
+	}()
+	e := task.NewExecutor(task.WithDir(dir), task.WithStdout(io.Discard), task.WithStderr(io.Discard), task.WithSilent(true),
+		task.WithTempDir(task.TempDir{Remote: filepath.Join(dir, ".task"), Fingerprint: filepath.Join(dir, ".task")}))
+	if err := e.Setup(); err != nil {
+		return []varsLine{{cl.String(), "setup-error " + hx(err.Error())}}
+	}
+	ct, err := e.CompiledTask(&task.Call{Task: "t"})
+	if err != nil {
+		return []varsLine{{cl.String(), "error " + hx(err.Error())}}
+	}
+	var parts []string
+	for _, en := range ch.Entries {
+		v, ok := ct.Env.Get(en.Name)
+		val := "?"
+		if ok {
+			val = hx(fmt.Sprint(v.Value))
+		}
+		parts = append(parts, fmt.Sprintf("%d=%s", idOf(en.Name), val))
+	}
+	return []varsLine{{cl.String(), strings.Join(parts, " ")}}
 }
 
 func evalVarsLoop(d varsCase) []varsLine {
@@ -364,6 +470,9 @@ func evalVarsAll(d varsCase) (lines []varsLine) {
 	}()
 	if d.Kind == "loop" && d.Loop != nil {
 		return evalVarsLoop(d)
+	}
+	if d.Kind == "envchain" && d.Chain != nil {
+		return evalVarsChain(d)
 	}
 	varsCaseNo++
 	base := os.Getenv("VERIF_SCRATCH")
@@ -890,6 +999,49 @@ func runVars(c *Ctx) {
 	for i := 0; i < c.Pick(80, 800) && os.Getenv("VERIF_VARS_ENVDEP") != "0"; i++ {
 		c.Hit("stream:envdep")
 		emitAll(c.genVarsCase(true))
+	}
+	nx := c.Pick(120, 1200)
+	for i := 0; i < nx; i++ {
+		r := c.Rng
+		ch := &vChain{}
+		ng, nt := r.Intn(3), 1+r.Intn(3)
+		var names []string
+		for k := 0; k < ng; k++ {
+			names = append(names, fmt.Sprintf("EG%d", k))
+		}
+		for k := 0; k < nt; k++ {
+			names = append(names, fmt.Sprintf("ET%d", k))
+		}
+		pool := append(append([]string{}, names...), "OX")
+		for k, n := range names {
+			e := vChainEnt{Name: n}
+			if r.Intn(2) == 0 {
+				e.Lit = fmt.Sprintf("v%d", k)
+			} else {
+				e.Reads = pool[r.Intn(len(pool))]
+				// half of the time read an EARLIER `sh:` entry: the chain the property is about
+				var shBefore []string
+				for _, p := range ch.Entries {
+					if p.Reads != "" {
+						shBefore = append(shBefore, p.Name)
+					}
+				}
+				if len(shBefore) > 0 && r.Intn(2) == 0 {
+					e.Reads = shBefore[r.Intn(len(shBefore))]
+				}
+				if e.Reads == n {
+					e.Reads = "OX"
+				}
+			}
+			ch.Entries = append(ch.Entries, e)
+		}
+		for _, n := range pool {
+			if r.Intn(4) == 0 {
+				ch.Os = append(ch.Os, [2]string{n, "os-" + strings.ToLower(n)})
+			}
+		}
+		c.Hit("envchain")
+		emitAll(varsCase{Kind: "envchain", Chain: ch, Dotenvs: map[string][][2]string{}})
 	}
 	nl := c.Pick(40, 400)
 	for i := 0; i < nl; i++ {
